@@ -18,3 +18,8 @@ open StarsimModel.C10
 #print axioms C10_aligned_from
 #print axioms C10_ageing
 #print axioms C10_init
+#print axioms C10_step_resolves
+#print axioms C10_step_balance
+#print axioms C10_plan_shape
+#print axioms C10_plan_every_module_set
+#print axioms C10_life_status_single_writer
